@@ -55,6 +55,7 @@ func (e *Engine) verifyFunction(fn *ssa.Function, noMerge bool) *FuncReport {
 	if noMerge {
 		ex.maxPaths = 96
 	}
+	ex.allowPanic = ct != nil && ct.AllowPanic
 	rep := &FuncReport{Fn: ex.rootName, HasCtr: ct != nil}
 	if ct == nil {
 		ct = &Contract{Fn: fn.String(), Loops: map[int]*LoopSpec{}, Nullable: map[string]bool{}}
@@ -80,8 +81,20 @@ func (e *Engine) verifyFunction(fn *ssa.Function, noMerge bool) *FuncReport {
 	}
 	sig := fn.Signature
 	var args []Value
+	// a function whose only memory-carrying parameter is one slice: the slice can be taken to
+	// start at offset 0 of its region without loss of generality (nothing else can alias it)
+	memParams := 0
+	for _, p := range fn.Params {
+		if typeCarriesMemory(p.Type()) {
+			memParams++
+		}
+	}
 	for i, p := range fn.Params {
 		v := st.SymValue(p.Type(), p.Name(), 0)
+		if sl, isSl := v.(*SliceV); isSl && memParams == 1 {
+			st.Assume(Eq(sl.Off, BVc(0, 64)))
+			sl.Off = BVc(0, 64)
+		}
 		args = append(args, v)
 		ex.inputs = append(ex.inputs, NamedVal{Name: p.Name(), Type: p.Type(), V: v})
 		if t, ok := v.(*Term); ok && t.Sort == SAddr {
@@ -148,6 +161,33 @@ func (e *Engine) verifyFunction(fn *ssa.Function, noMerge bool) *FuncReport {
 		}
 		st.Assume(g)
 	}
+	// behavioural subtyping: a method must also satisfy the contract of every interface method it implements
+	var ifaceClauses []Clause
+	if recv := sig.Recv(); recv != nil {
+		for key, ic := range e.ifaceCt {
+			// key: (pkg.Iface).Method
+			i := strings.LastIndex(key, ").")
+			if i < 0 || key[i+2:] != fn.Name() {
+				continue
+			}
+			it := e.lookupNamed(key[1:i])
+			if it == nil {
+				continue
+			}
+			iface, ok := it.Underlying().(*types.Interface)
+			if !ok || !types.Implements(recv.Type(), iface) {
+				continue
+			}
+			for _, c := range ic.Ensures {
+				c2 := c
+				c2.Label = "iface:" + c.Label
+				ifaceClauses = append(ifaceClauses, c2)
+			}
+			if ic.HasMod && len(ic.Modifies) == 0 && len(ct.Modifies) > 0 {
+				ex.fail("interface contract " + key + " says `modifies nothing` but this implementor declares modifies " + strings.Join(ct.Modifies, ", "))
+			}
+		}
+	}
 	entry := st.Clone()
 	ex.entry = entry
 	ex.rootVars = env0.vars
@@ -201,7 +241,7 @@ func (e *Engine) verifyFunction(fn *ssa.Function, noMerge bool) *FuncReport {
 			}
 			ex.addObl(st2, "post", "ginv:"+gi.Name, g, gi.Clause.Text)
 		}
-		for _, c := range ct.Ensures {
+		for _, c := range append(append([]Clause{}, ct.Ensures...), ifaceClauses...) {
 			g, err := env.EvalBool(c.Expr)
 			if err != nil {
 				ex.fail(fmt.Sprintf("ensures %s %q: %v", c.Label, c.Text, err))
@@ -305,6 +345,9 @@ func (e *SpecEnv) modItem(m string) modItem {
 	switch n.Kind {
 	case "unary":
 		p := e.eval(n.Args[0])
+		if iv, isI := p.V.(*IfaceV); isI {
+			return modItem{kind: "under", addr: iv.Data}
+		}
 		return modItem{kind: "under", addr: p.V.(*Term)}
 	case "sel":
 		a, _ := e.lvalAddr(n)
@@ -485,4 +528,35 @@ func absentAxiomsOnly(st *State) []*Term {
 		}
 	}
 	return out
+}
+
+func typeCarriesMemory(t types.Type) bool {
+	switch u := t.Underlying().(type) {
+	case *types.Pointer, *types.Slice, *types.Map, *types.Interface, *types.Signature, *types.Chan:
+		return true
+	case *types.Struct:
+		for i := 0; i < u.NumFields(); i++ {
+			if typeCarriesMemory(u.Field(i).Type()) {
+				return true
+			}
+		}
+	case *types.Array:
+		return typeCarriesMemory(u.Elem())
+	}
+	return false
+}
+
+func (e *Engine) lookupNamed(qualified string) types.Type {
+	i := strings.LastIndex(qualified, ".")
+	if i < 0 {
+		return nil
+	}
+	p := e.ssaPkgs[qualified[:i]]
+	if p == nil {
+		return nil
+	}
+	if tn, ok := p.Pkg.Scope().Lookup(qualified[i+1:]).(*types.TypeName); ok {
+		return tn.Type()
+	}
+	return nil
 }
